@@ -307,6 +307,9 @@ class Equalizer(object):
         """
         Creates and start new player process, ready to take playback tasks
         """
+        # Use fresh queues per process so nothing left by a previous (timed out / dead) process is consumed
+        self._compare_tasks = mp.Queue()
+        self._compare_results = mp.Queue()
         self._compare_process = mp.Process(
             target=self._playback_process_target, name='Playback runner')
         self._compare_process.start()
